@@ -28,13 +28,58 @@ package statsd
 //@   requires a != nil && a.metricMap != nil && a.metricMap.Counters[key] != nil
 //@   modifies a.metricMap.Counters[key][*]
 
-// The timers closure of Flush, called by Timers.Each for every (key, tagsKey) of the map.
+// The timers closure of Flush, called by Timers.Each for every (key, tagsKey) of the map (C04, C08).
+// kSpec(p, n): how many values a percentile covers (specs/c08_stats.gvs): 1 for a single value, else round(|p|/100*n)
+// stored(a, key, tagsKey): the timer as written back to the map
 //@ func (*MetricAggregator).Flush$2
 //@   floats real
 //@   requires a != nil && a.metricMap != nil && a.metricMap.Timers[key] != nil && PctOK(a)
-//@   loop 1 invariant 1 <= i
-//@   loop 3 invariant 0 <= i
+//@   loop 1 invariant 1 <= i && i <= n && n == len(timer.Values) && len(cumulativeValues) == n && len(cumulSumSquaresValues) == n
+//@   loop 1 invariant elems(timer.Values) == pre(elems(timer.Values)) && base(cumulativeValues) != base(timer.Values) && base(cumulSumSquaresValues) != base(timer.Values) && base(cumulativeValues) != base(cumulSumSquaresValues)
+//@   loop 1 invariant forall j int :: 0 <= j && j < i ==> cumulativeValues[j] == psum(elems(timer.Values), off(timer.Values), j + 1) && cumulSumSquaresValues[j] == psumsq(elems(timer.Values), off(timer.Values), j + 1)
+//@   loop 2 invariant n == len(timer.Values) && n >= 1 && (n == 1 ==> sum == timer.Values[0] && mean == timer.Values[0] && sumSquares == timer.Values[0] * timer.Values[0] && thresholdBoundary == timer.Values[0])
+//@   loop 3 invariant 0 <= i && i <= n && sumOfDiffs == pdev(elems(timer.Values), off(timer.Values), i, mean)
+//@   callsite Set requires numInThreshold == kSpec(pct, n) && numInThreshold != 0
+//@   callsite Set#1 requires f == real(kSpec(pct, n))
+//@   callsite Set#1 requires 1 <= kSpec(pct, n) && kSpec(pct, n) <= n && (n == 1 ==> kSpec(pct, n) == 1)
+//@   callsite Set#1 requires n > 1 ==> cumulativeValues[n - 1] == psum(elems(timer.Values), off(timer.Values), n) && cumulSumSquaresValues[n - 1] == psumsq(elems(timer.Values), off(timer.Values), n)
+//@   callsite Set#1 requires n > 1 && pct > 0.0 ==> cumulativeValues[kSpec(pct, n) - 1] == psum(elems(timer.Values), off(timer.Values), kSpec(pct, n)) && cumulSumSquaresValues[kSpec(pct, n) - 1] == psumsq(elems(timer.Values), off(timer.Values), kSpec(pct, n))
+//@   callsite Set#1 requires n > 1 && pct <= 0.0 && kSpec(pct, n) < n ==> cumulativeValues[n - kSpec(pct, n) - 1] == psum(elems(timer.Values), off(timer.Values), n - kSpec(pct, n)) && cumulSumSquaresValues[n - kSpec(pct, n) - 1] == psumsq(elems(timer.Values), off(timer.Values), n - kSpec(pct, n))
+//@   callsite Set#1 requires n > 1 && pct <= 0.0 && kSpec(pct, n) < n ==> psum(elems(timer.Values), off(timer.Values), n) == psum(elems(timer.Values), off(timer.Values), n - kSpec(pct, n)) + psum(elems(timer.Values), off(timer.Values) + n - kSpec(pct, n), kSpec(pct, n))
+//@   callsite Set#1 requires n > 1 && pct <= 0.0 && kSpec(pct, n) < n ==> psumsq(elems(timer.Values), off(timer.Values), n) == psumsq(elems(timer.Values), off(timer.Values), n - kSpec(pct, n)) + psumsq(elems(timer.Values), off(timer.Values) + n - kSpec(pct, n), kSpec(pct, n))
+//@   callsite Set#1 requires n == 1 ==> psum(elems(timer.Values), off(timer.Values), 1) == timer.Values[0] && psumsq(elems(timer.Values), off(timer.Values), 1) == timer.Values[0] * timer.Values[0]
+//@   callsite Set#1 requires pct > 0.0 ==> sum == psum(elems(timer.Values), off(timer.Values), kSpec(pct, n)) && sumSquares == psumsq(elems(timer.Values), off(timer.Values), kSpec(pct, n))
+//@   callsite Set#1 requires pct <= 0.0 ==> sum == psum(elems(timer.Values), off(timer.Values) + n - kSpec(pct, n), kSpec(pct, n)) && sumSquares == psumsq(elems(timer.Values), off(timer.Values) + n - kSpec(pct, n), kSpec(pct, n))
+//@   callsite Set#1 requires mean == sum / real(kSpec(pct, n))
+//@   callsite Set#2 requires f == mean
+//@   callsite Set#3 requires f == sum
+//@   callsite Set#4 requires f == sumSquares
+//@   callsite Set#5 requires pct > 0.0 && f == timer.Values[kSpec(pct, n) - 1]
+//@   callsite Set#6 requires pct <= 0.0 && f == timer.Values[n - kSpec(pct, n)]
+//@   ensures  [stats] key in a.metricMap.Timers && tagsKey in a.metricMap.Timers[key] && a.metricMap.Timers[key][tagsKey].Values == timer.Values
+//@   ensures  [stats] !histTag(timer.Tags) && len(timer.Values) > 0 ==> a.metricMap.Timers[key][tagsKey].Min == timer.Values[0] && a.metricMap.Timers[key][tagsKey].Max == timer.Values[len(timer.Values) - 1]
+//@   ensures  [stats] !histTag(timer.Tags) && len(timer.Values) > 0 ==> a.metricMap.Timers[key][tagsKey].Sum == psum(elems(timer.Values), off(timer.Values), len(timer.Values)) && a.metricMap.Timers[key][tagsKey].SumSquares == psumsq(elems(timer.Values), off(timer.Values), len(timer.Values))
+//@   ensures  [stats] !histTag(timer.Tags) && len(timer.Values) > 0 ==> a.metricMap.Timers[key][tagsKey].Mean == a.metricMap.Timers[key][tagsKey].Sum / real(len(timer.Values))
+//@   ensures  [stats] !histTag(timer.Tags) && len(timer.Values) > 0 ==> a.metricMap.Timers[key][tagsKey].StdDev == sqrt(pdev(elems(timer.Values), off(timer.Values), len(timer.Values), a.metricMap.Timers[key][tagsKey].Mean) / real(len(timer.Values)))
+//@   ensures  [stats] !histTag(timer.Tags) && len(timer.Values) > 0 ==> a.metricMap.Timers[key][tagsKey].Count == floor(timer.SampledCount + 0.5) || floor(timer.SampledCount + 0.5) < -9223372036854775808 || floor(timer.SampledCount + 0.5) > 9223372036854775807
+//@   ensures  [stats] !histTag(timer.Tags) && len(timer.Values) > 0 ==> a.metricMap.Timers[key][tagsKey].PerSecond == timer.SampledCount / flushInSeconds
+//@   ensures  [stats] !histTag(timer.Tags) && len(timer.Values) > 0 && len(timer.Values) % 2 == 0 ==> a.metricMap.Timers[key][tagsKey].Median == (timer.Values[len(timer.Values) / 2 - 1] + timer.Values[len(timer.Values) / 2]) / 2.0
+//@   ensures  [stats] !histTag(timer.Tags) && len(timer.Values) > 0 && len(timer.Values) % 2 == 1 ==> a.metricMap.Timers[key][tagsKey].Median == timer.Values[len(timer.Values) / 2]
+//@   ensures  [stats] !histTag(timer.Tags) && len(timer.Values) == 0 ==> a.metricMap.Timers[key][tagsKey].Count == 0 && a.metricMap.Timers[key][tagsKey].SampledCount == 0.0 && a.metricMap.Timers[key][tagsKey].PerSecond == 0.0
+//@   ensures  [stats] histTag(timer.Tags) ==> a.metricMap.Timers[key][tagsKey].Count == timer.Count && a.metricMap.Timers[key][tagsKey].Sum == timer.Sum && a.metricMap.Timers[key][tagsKey].Mean == timer.Mean && len(a.metricMap.Timers[key][tagsKey].Percentiles) == len(timer.Percentiles)
 //@   modifies a.metricMap.Timers[key][*], timer.Values[*], allElems(gostatsd.Percentiles)
+
+// histTag(tags): some tag starts with "gsd_histogram:" (the timer is aggregated as a histogram)
+//@ pred histTag(tags gostatsd.Tags) := exists k int :: off(tags) <= k && k < off(tags) + len(tags) && hasPrefix(at(tags, k), "gsd_histogram:")
+
+//@ func findTag
+//@   ensures  result1 ==> (exists k int :: off(a) <= k && k < off(a) + len(a) && hasPrefix(at(a, k), prefix))
+//@   ensures  !result1 ==> (forall k int :: off(a) <= k && k < off(a) + len(a) ==> !hasPrefix(at(a, k), prefix))
+//@   ensures  result1 ==> hasPrefix(result0, prefix) && len(result0) >= len(prefix)
+//@   loop 1 invariant forall k int :: off(a) <= k && k <= off(a) + rangeindex ==> !hasPrefix(at(a, k), prefix)
+
+//@ func hasHistogramTag
+//@   ensures  result == histTag(timer.Tags)
 
 //@ func mapToThresholds
 //@   ensures  base(result) == 0 || fresh(base(result))
